@@ -894,7 +894,7 @@ def apply_over_axes(func, a, axes):
 
 def diff_helper(func, arr, *args, **kwargs):
     u = getattr(arr, "units", NULL_UNIT)
-    if u.dimensions is temperature:
+    if u.dimensions == temperature:
         if u.base_offset:
             raise InvalidUnitOperation(
                 "Quantities with units of Fahrenheit or Celsius "
